@@ -25,21 +25,22 @@ theorem run_skeleton_recognised :
     Gen.ParserRun.runShapeOk = true ∧ Gen.ParserRun.runClose = handRunClose ∧
     Gen.ParserRun.runDefault.filter (! ·.isYield) = handRunDefault ∧
     Gen.ParserRun.runTail.filter (! ·.isYield) = handRunTail ∧
-    Gen.ParserRun.runLoopHead.filter (! ·.isYield) = [] ∧
+    Gen.ParserRun.runLoopHead.filter (! ·.isYield) = [] ∧ Gen.ParserRun.runHead.filter (! ·.isYield) = [] ∧
     Gen.ParserRun.timerCallback.filter (! ·.isYield) = handCallback ∧
     Gen.ParserRun.timerCapturesGen = true ∧ Gen.ParserRun.unrecognised = [] := by decide
 
 /-- **The yield points of the forced-schedule harness stand where `Model/ParserRunSched.lean` says**
     (round 4): `verifSched(p, n)` in front of the `select` (10), `Lock` (11), `escGen++` (12),
     `anywhere` (13), the `Unlock`s of the loop (14); after the loop in front of `Stop` (20), `Lock` (21),
-    `escGen++` (22), `Unlock` (23), `emit(EOF{})` (24), `close` (25) and when `run` returns (29); in the
+    `escGen++` (22), `Unlock` (23), `emit(EOF{})` (24), `close` (25) and when `run` returns (29; and 19,
+    deferred at the top of `run`: it hands a panic of `run` to the harness); in the
     callback in front of `Lock` (30), the generation check (31), `emit` (32), `state = ground` (33),
     `ignoreST = false` (34) and — deferred, registered before the deferred `Unlock`, hence after it —
     when it returns (39).  So a goroutine parked at point `n` is exactly at the program counter the
     replay (`Driver/C08Sched.lean`) gives it, and "between point 12 and the `Unlock`" is "holds the
     mutex". -/
 theorem yield_points_in_front_of_statements :
-    Gen.ParserRun.runLoopHead = handRunLoopHeadY ∧ Gen.ParserRun.runDefault = handRunDefaultY ∧
+    Gen.ParserRun.runHead = handRunHeadY ∧ Gen.ParserRun.runLoopHead = handRunLoopHeadY ∧ Gen.ParserRun.runDefault = handRunDefaultY ∧
     Gen.ParserRun.runTail = handRunTailY ∧ Gen.ParserRun.timerCallback = handCallbackY := by decide
 
 /-! ### the model's program counters, in the order it walks them -/
